@@ -652,8 +652,10 @@ static void run_wrap(uint64_t seed, uint64_t index) {
   size_t cap = size_t(r.pick<int>({1, 1, 2, 4}));
   size_t real_cap = 1;
   while (real_cap < cap) real_cap <<= 1;
-  uint64_t n = 32768 * real_cap + r.range(500, 4000);
+  uint64_t wraps = r.range(2, 3);  // the expected slot version wraps every 32768 rounds of the ring: several chances per episode
+  uint64_t n = wraps * 32768 * real_cap + r.range(500, 4000);
   int retirers = int(r.range(1, 3));
+  if (index == 0) { cap = real_cap = 1; retirers = 1; n = 3 * 32768 + r.range(500, 4000); }
   std::string desc = vf::fmt("wrap ep=%lu seed=%lu capacity=%zu retirements=%lu retirers=%d", (unsigned long)index,
                              (unsigned long)seed, cap, (unsigned long)n, retirers);
   vf::watchdog().set_context(desc);
@@ -721,7 +723,7 @@ int main(int argc, char** argv) {
     auto& wdw = vf::watchdog();
     wdw.classify = []() -> std::string { return "stuck:wrap:retire-or-stop-never-returned"; };
     wdw.start();
-    uint64_t nw = vf::budget(3, 60);
+    uint64_t nw = vf::budget(4, 60);
     for (uint64_t e = 0; e < nw && !vf::failed(); ++e) run_wrap(a.seed, e);
     wdw.shutdown();
     return vf::finish();
